@@ -491,4 +491,20 @@ theorem eval_no_mutation {V : Type} (w : NsWorld V) (vars : Dict V) (locals_ : O
   simp [assemble, nsTarget, NsWorld.read, List.getD, Fsic.setAt_getElem?_ne _ _ _ _ hne,
     List.getElem?_append_left hl]
 
+/-- **Undefined names.**  A name bound in no layer (no caller local, no variable, no helper) ends in
+    AttributeError naming it — for every list of closest-match suggestions (none, one, several). -/
+theorem undefined_name_attributeError {V : Type} (w : NsWorld V) (vars : Dict V) (locals_ : Option (Dict V))
+    (suggestions : List String) (name : String)
+    (hl : (locals_.getD []).get name = none) (hv : vars.get name = none) (hh : (w.read 0).get name = none) :
+    evalName ((assemble w none vars locals_).1.read (assemble w none vars locals_).2) suggestions name =
+      .attributeError name := by
+  have h := namespace_precedence w vars locals_ name
+  rw [hl, hv, hh] at h
+  simp only [Option.or] at h
+  unfold evalName
+  rw [h]
+  cases suggestions <;> rfl
+
+example : evalName ([("GDP", 1), ("gdp", 2)] : Dict Nat) ["GDP", "gdp"] "Gdp" = .attributeError "Gdp" := by decide
+
 end Fsic.C16
